@@ -1461,3 +1461,173 @@ def check_c03(tier, replay):
     vlib.write_evidence(prop, tier, "model_checking", cover, assumptions, time.time() - t0,
                         len(summ["violations"]))
     return vlib.finish(prop, summ["violations"], [])
+
+
+def _emit_cases(module, cfg, name, simulate=None, timeout_s=900):
+    cases = []
+    vlib.run_tlc(module, cfg, name, timeout_s=timeout_s, coverage=False, workers=1, simulate=simulate,
+                 tag_sink=lambda tag, obj: cases.append(obj) if tag == "CASE" else None)
+    return cases
+
+
+def _strip_invariants(cfg, names):
+    txt = open(cfg).read()
+    for n in names:
+        txt = txt.replace("  %s\n" % n, "")
+    open(cfg, "w").write(txt)
+
+
+UPLOAD_INVS = ["NoPartialExposed", "BadRefused", "NoLeftovers", "GoodAccepted"]
+FILES_INVS = ["EditorExact", "ServerExact", "ReaderExact", "ServerSubset"]
+
+
+@register("C17")
+def check_c17(tier, replay):
+    prop = "C17"
+    t0 = time.time()
+    wd = vlib.workdir("%s_%s" % (prop, tier))
+    scratch = vlib.scratch_base(prop)
+    if replay:
+        vlib.cargo_build()
+        v = json.load(open(replay))
+        d = v.get("detail", v)
+        pfile = os.path.join(wd, "replay.ndjson")
+        with open(pfile, "w") as f:
+            f.write(json.dumps(d["case"]) + "\n")
+        world = "upload" if isinstance(d["case"], dict) and "steps" in d["case"] else "files"
+        args = [vlib.harness_bin("replay"), world, pfile, scratch] + ([str(d.get("idx", 0))] if world == "files" else [])
+        summ = vlib.run_harness(args)
+        for x in summ["violations"]:
+            log("REPLAY-DIVERGENCE " + x["summary"][:1500])
+        return 1 if summ["violations"] else 0
+    # ---- (1) server side: Upload.tla
+    cfg = vlib.render_cfg("MC_Upload.cfg", {"Deviations": "{}", "EmitCases": "FALSE"}, os.path.join(wd, "up_prop.cfg"))
+    ru = vlib.run_tlc("MC_Upload", cfg, prop + "up", timeout_s=600)
+    if ru.violated:
+        raise ToolError("Upload spec violates %s" % ru.violated)
+    cfg = vlib.render_cfg("MC_Upload.cfg", {"Deviations": '{"NoFileLock"}', "EmitCases": "FALSE"},
+                          os.path.join(wd, "up_dev.cfg"))
+    rd = vlib.run_tlc("MC_Upload", cfg, prop + "ud", timeout_s=600, coverage=False)
+    if "NoPartialExposed" not in rd.violated:
+        raise ToolError("Upload.tla without the file lock does not violate NoPartialExposed")
+    cfg = vlib.render_cfg("MC_Upload.cfg", {"Deviations": "{}", "EmitCases": "TRUE"}, os.path.join(wd, "up_emit.cfg"))
+    _strip_invariants(cfg, UPLOAD_INVS)
+    faithful = _emit_cases("MC_Upload", cfg, prop + "ue")
+    for c in faithful:
+        c["faithful"] = True
+    cfg = vlib.render_cfg("MC_Upload.cfg", {"Deviations": '{"NoFileLock"}', "EmitCases": "TRUE"},
+                          os.path.join(wd, "up_emit2.cfg"))
+    _strip_invariants(cfg, UPLOAD_INVS)
+    racing = _emit_cases("MC_Upload", cfg, prop + "ur")
+    for c in racing:
+        c["faithful"] = False
+    # schedules in which the unlocked design would expose a bad file come first
+    racing.sort(key=lambda c: not c.get("exposedBad"))
+    import random
+    rng = random.Random(vlib.seed())
+    if tier == "quick":
+        keep_bad = [c for c in racing if c.get("exposedBad")][:24]
+        rest = [c for c in racing if not c.get("exposedBad")]
+        rng.shuffle(rest)
+        racing = keep_bad + rest[:40]
+        f2 = list(faithful)
+        rng.shuffle(f2)
+        faithful = f2[:120]
+    up_cases = faithful + racing
+    if not faithful or not racing:
+        raise ToolError("TLC emitted no upload schedules")
+    # ---- (2) client side: Files.tla
+    fconsts = {"Slots": '{"s1", "s2"}', "Folders": '{"d", "f1"}', "Contents": '{"c1", "c2"}',
+               "MaxOps": "4" if tier == "quick" else "5", "Deviations": "{}", "EmitBehaviours": "FALSE"}
+    cfg = vlib.render_cfg("MC_Files.cfg", fconsts, os.path.join(wd, "f_prop.cfg"))
+    rf = vlib.run_tlc("MC_Files", cfg, prop + "fp", timeout_s=1800)
+    if rf.violated:
+        raise ToolError("Files spec violates %s" % rf.violated)
+    for dev in ("NoMovedMissing", "ReaderKeepsDeleted"):
+        cfg = vlib.render_cfg("MC_Files.cfg", dict(fconsts, MaxOps="4", Deviations=dev_set([dev])),
+                              os.path.join(wd, "f_dev.cfg"))
+        rdv = vlib.run_tlc("MC_Files", cfg, prop + "fd", timeout_s=900, coverage=False)
+        if not rdv.violated:
+            raise ToolError("Files.tla does not notice deviation %s" % dev)
+    depth = 7 if tier == "quick" else 9
+    want = 12 if tier == "quick" else 90
+    cfg = vlib.render_cfg("MC_Files.cfg", dict(fconsts, MaxOps=str(depth), EmitBehaviours="TRUE"),
+                          os.path.join(wd, "f_emit.cfg"))
+    raw = _emit_cases("MC_Files", cfg, prop + "fe", simulate=(want * 12, depth * 8), timeout_s=600)
+    uniq = {}
+    for h in raw:
+        uniq.setdefault(json.dumps([s["op"] for s in h]), h)
+    beh = list(uniq.values())
+    # behaviours in which the reader syncs (twice, ideally) first
+    beh.sort(key=lambda h: -min(2, sum(1 for s in h if s["op"][0] == "SyncReader")))
+    beh = beh[:want]
+    ops = {}
+    for h in beh:
+        for s in h:
+            ops[s["op"][0]] = ops.get(s["op"][0], 0) + 1
+    for a in ("CreateFile", "UpdateFile", "MoveFile", "DeleteSecret", "DeleteFolder", "SyncReader"):
+        if not ops.get(a):
+            raise ToolError("no generated behaviour contains %s" % a)
+    vlib.cargo_build()
+    # uploads: 6 processes
+    chunks = 6
+    up_inputs = []
+    for i in range(chunks):
+        part = up_cases[i::chunks]
+        if part:
+            p = os.path.join(wd, "up_%02d.ndjson" % i)
+            with open(p, "w") as f:
+                for c in part:
+                    f.write(json.dumps(c) + "\n")
+            up_inputs.append(p)
+    s_up = vlib.run_harness_parallel(
+        lambda p: [vlib.harness_bin("replay"), "upload", p, os.path.join(scratch, os.path.basename(p)[:5])],
+        up_inputs, jobs=6, timeout_s=3000)
+    if s_up["mismatches"]:
+        raise ToolError("server answers differ from Upload.tla on schedules of the faithful model: %s"
+                        % json.dumps(s_up["mismatches"][:3])[:1500])
+    f_inputs = []
+    per = (len(beh) + chunks - 1) // chunks
+    for i in range(chunks):
+        part = beh[i * per:(i + 1) * per]
+        if part:
+            p = os.path.join(wd, "fb_%02d_%d.ndjson" % (i, i * per))
+            with open(p, "w") as f:
+                for c in part:
+                    f.write(json.dumps(c) + "\n")
+            f_inputs.append(p)
+    s_f = vlib.run_harness_parallel(
+        lambda p: [vlib.harness_bin("replay"), "files", p, os.path.join(scratch, os.path.basename(p)[:5]),
+                   os.path.basename(p).split("_")[2].split(".")[0]],
+        f_inputs, jobs=6, timeout_s=3400)
+    violations = s_up["violations"] + s_f["violations"]
+    cover = {
+        "states": ru.distinct + rf.distinct, "transitions": ru.generated + rf.generated,
+        "traces_validated_against_impl": len(up_cases) + len(beh),
+        "evaluations": s_up["steps"] + s_f["steps"],
+        "distinct_nontrivial": len(set(s_up["nontrivial_keys"])) + len(set(s_f["nontrivial_keys"])),
+        "rule": "Upload.tla models receive_file at the granularity create-temp / write-chunk / verify-digest+rename / "
+                "guard / abort for two concurrent uploads of one name under the file_operation_lock (NoPartialExposed, "
+                "BadRefused, NoLeftovers, GoodAccepted; without the lock TLC exhibits an exposed corrupt file). Every "
+                "terminal schedule of the faithful model and the racing schedules of the lock-less model are replayed "
+                "against PUT /api/v1/sync/file of a live server with bodies streamed chunk by chunk under the control of "
+                "the schedule (correct, altered, truncated, empty, extended; connection drop): after every step the "
+                "file readable under its name (disk and GET) must hash to the name, wrong bodies must not be accepted, "
+                "no .upload file may remain, and on faithful schedules each status must be the model's. Files.tla models "
+                "file-secret edits, the transfer queue (normalize, MovedMissing), log push, reader sync and downloads "
+                "(EditorExact, ServerExact, ReaderExact, ServerSubset; each queue mechanism shown necessary by a "
+                "deviation). Simulated behaviours run on two NetworkAccount devices and a live server: after each edit "
+                "the editor's blobs = FileReducer(its log) = the model's set, each blob hashes to its name and the "
+                "touched blob decrypts to the original; within the settle time the server's blobs = reduce(server file "
+                "log) = reduce(editor log) with no stray files; after a reader sync the reader's blobs = reduce(its log).",
+        "samples": (s_up["samples"][:2] + s_f["samples"][:1]), "exhaustive": tier != "quick",
+        "upload_schedules": {"faithful": len(faithful), "racing": len(racing)},
+        "file_behaviours": len(beh), "file_operations": ops,
+        "counters": {"upload": s_up["counters"], "files": s_f["counters"]},
+    }
+    assumptions = ["settle time %ss per step (VERIF_SETTLE_SECS): a set that is still wrong after it is reported"
+                   % os.environ.get("VERIF_SETTLE_SECS", "25"),
+                   "only the first device edits; the second device syncs (the quantifier of the property)",
+                   "file-system backend on both sides for the blob comparison"]
+    vlib.write_evidence(prop, tier, "model_checking", cover, assumptions, time.time() - t0, len(violations))
+    return vlib.finish(prop, violations, [])
